@@ -77,6 +77,34 @@ def cases(ctx):
             cs.append(dict(op='tconv', table='user', tkey='t%d' % tk, rows=rows, form=form, a=qj(F(7, 2)), u=v, v=u))
             cs.append(dict(op='tconv', table='user', tkey='t%d' % tk, rows=rows, form=form, a=qj(F(-9, 4)), u=u, v=v))
             cs.append(dict(op='tadd', table='user', tkey='t%d' % tk, rows=rows, form=form, a=qj(F(7, 2)), u=u, b=qj(F(1, 2)), v=v, sub=False))
+    # two table converters on one type: the newer one answers the pairs it knows, the older one the rest
+    def row(f, t, fac, off):
+        return dict(f=f, t=t, fac=qj(fac), off=qj(off), frep='frac', orep='frac')
+    two = [([row('x', 'y', F(2), F(1))], [row('y', 'z', F(3), F(0))]),
+           ([row('x', 'y', F(2), F(1)), row('y', 'z', F(1, 2), F(4))], [row('x', 'y', F(5), F(0))]),
+           ([row('x', 'y', F(9, 5), F(32))], [row('z', 'x', F(1, 4), F(-1))]),
+           ([row('x', 'y', F(2), F(0)), row('x', 'z', F(3), F(0))], [])]
+    # order-reversing scales (negative factor): conversion, equality and sums; ordering is left out because the
+    # property does not say in whose unit two amounts on an order-reversing scale are to be compared
+    neg = [[row('x', 'y', F(-1), F(100))], [row('x', 'y', F(-3, 2), F(150)), row('y', 'x', F(-2, 3), F(100))]]
+    for j, (r1, r2) in enumerate(two):
+        key = 'two%d' % j
+        for a in (F(5), F(-3, 4), F(0), F(10, 3)):
+            for u, v in itertools.product('xyz', 'xyz'):
+                cs.append(dict(op='tconv', table='user2', tkey=key, rows=r1, rows2=r2, form='list', a=qj(a), u=u, v=v, rep='frac'))
+        for (u, v) in itertools.permutations('xyz', 2):
+            for c in ('lt', 'eq', 'ge'):
+                cs.append(dict(op='tcmp', table='user2', tkey=key, rows=r1, rows2=r2, form='list', a=qj(F(7, 2)), u=u, b=qj(F(2)), v=v, c=c))
+            cs.append(dict(op='tadd', table='user2', tkey=key, rows=r1, rows2=r2, form='list', a=qj(F(7, 2)), u=u, b=qj(F(1, 2)), v=v, sub=True))
+    for j, r1 in enumerate(neg):
+        key = 'neg%d' % j
+        for a in (F(10), F(90), F(0), F(-5), F(100, 3), F(50)):
+            for u, v in itertools.product('xy', 'xy'):
+                cs.append(dict(op='tconv', table='user', tkey=key, rows=r1, form=['list', 'map'][j], a=qj(a), u=u, v=v, rep='frac'))
+                for b in (F(90), F(50), F(25)):
+                    for c in ('eq', 'ne'):
+                        cs.append(dict(op='tcmp', table='user', tkey=key, rows=r1, form=['list', 'map'][j], a=qj(a), u=u, b=qj(b), v=v, c=c))
+                    cs.append(dict(op='tadd', table='user', tkey=key, rows=r1, form=['list', 'map'][j], a=qj(a), u=u, b=qj(b), v=v, sub=False))
     return cs
 
 
@@ -89,7 +117,7 @@ def _stage(cs):
     groups = {}
     order = []
     for c in cs:
-        key = c.get('tkey', 'temp:%d' % (len(order) // 400)) if c['table'] == 'user' else 'temp:%d' % (c['n'] // 400)
+        key = c.get('tkey', 'temp:%d' % (len(order) // 400)) if c['table'] in ('user', 'user2') else 'temp:%d' % (c['n'] // 400)
         if key not in groups:
             groups[key] = []
             order.append(key)
